@@ -50,7 +50,7 @@ func init() {
 		New:      func() any { return &C07Case{} },
 		Check:    func(c any) Result { return checkC07(c.(*C07Case)) },
 		Quick:    2000,
-		Thorough: 10000,
+		Thorough: 150000,
 	})
 }
 
